@@ -297,7 +297,19 @@ def render_paths(N, nodes, limit: int = 512, for_zero: bool = False, subst=None,
             elif isinstance(node, (N.CallBlock, N.FilterBlock, N.Block)):
                 paths = run(node.body, paths)
             elif isinstance(node, N.Assign) and isinstance(node.target, N.Name):
-                paths = [TPath(p.parts, p.conds, p.ph, p.env + ((node.target.name, node.node),), p.cnodes) for p in paths]
+                tname = node.target.name
+                self_ref = any(isinstance(x, N.Name) and x.name == tname and x.ctx == "load" for x in [node.node] + list(node.node.find_all(N.Name)))
+                nxt = []
+                for p in paths:
+                    rhs = node.node
+                    if self_ref and p.binding(tname) is not None:
+                        # `x = f(x)`: the right-hand side reads the previous binding - resolve it now, the name is about to be rebound
+                        import copy
+                        holder = N.Tuple([copy.deepcopy(node.node)], "load")
+                        j2front._replace_names(N, holder, {tname: p.binding(tname)})
+                        rhs = holder.items[0]
+                    nxt.append(TPath(p.parts, p.conds, p.ph, p.env + ((tname, rhs),), p.cnodes))
+                paths = nxt
             elif isinstance(node, (N.Assign, N.AssignBlock, N.Macro, N.Import, N.FromImport, N.ExprStmt, N.Extends, N.Include)):
                 pass
             else:
